@@ -271,25 +271,25 @@ namespace PlaybackModel.Recorder
 @[simp] theorem recordOutput_journal (s : St) (cfg : OutCfg) (n : Nat) (args : Args) : (recordOutput s cfg n args).journal = s.journal := by
   unfold recordOutput; split <;> (try split) <;> simp
 @[simp] theorem afterInput_enabled (cfg : InCfg) (args : Args) (k0 : Key) (s : St) (o : Out) : (afterInput cfg args k0 s o).enabled = s.enabled := by
-  unfold afterInput; split <;> (try split) <;> (try split) <;> simp
+  unfold afterInput; split <;> simp
 @[simp] theorem afterInput_playback (cfg : InCfg) (args : Args) (k0 : Key) (s : St) (o : Out) : (afterInput cfg args k0 s o).playback = s.playback := by
-  unfold afterInput; split <;> (try split) <;> (try split) <;> simp
+  unfold afterInput; split <;> simp
 @[simp] theorem afterInput_playbackOutputs (cfg : InCfg) (args : Args) (k0 : Key) (s : St) (o : Out) : (afterInput cfg args k0 s o).playbackOutputs = s.playbackOutputs := by
-  unfold afterInput; split <;> (try split) <;> (try split) <;> simp
+  unfold afterInput; split <;> simp
 @[simp] theorem afterInput_inInt (cfg : InCfg) (args : Args) (k0 : Key) (s : St) (o : Out) : (afterInput cfg args k0 s o).inInt = s.inInt := by
-  unfold afterInput; split <;> (try split) <;> (try split) <;> simp
+  unfold afterInput; split <;> simp
 @[simp] theorem afterInput_draws (cfg : InCfg) (args : Args) (k0 : Key) (s : St) (o : Out) : (afterInput cfg args k0 s o).draws = s.draws := by
-  unfold afterInput; split <;> (try split) <;> (try split) <;> simp
+  unfold afterInput; split <;> simp
 @[simp] theorem afterInput_drawn (cfg : InCfg) (args : Args) (k0 : Key) (s : St) (o : Out) : (afterInput cfg args k0 s o).drawn = s.drawn := by
-  unfold afterInput; split <;> (try split) <;> (try split) <;> simp
+  unfold afterInput; split <;> simp
 @[simp] theorem afterInput_clock (cfg : InCfg) (args : Args) (k0 : Key) (s : St) (o : Out) : (afterInput cfg args k0 s o).clock = s.clock := by
-  unfold afterInput; split <;> (try split) <;> (try split) <;> simp
+  unfold afterInput; split <;> simp
 @[simp] theorem afterInput_nextId (cfg : InCfg) (args : Args) (k0 : Key) (s : St) (o : Out) : (afterInput cfg args k0 s o).nextId = s.nextId := by
-  unfold afterInput; split <;> (try split) <;> (try split) <;> simp
+  unfold afterInput; split <;> simp
 @[simp] theorem afterInput_store (cfg : InCfg) (args : Args) (k0 : Key) (s : St) (o : Out) : (afterInput cfg args k0 s o).store = s.store := by
-  unfold afterInput; split <;> (try split) <;> (try split) <;> simp
+  unfold afterInput; split <;> simp
 @[simp] theorem afterInput_journal (cfg : InCfg) (args : Args) (k0 : Key) (s : St) (o : Out) : (afterInput cfg args k0 s o).journal = s.journal := by
-  unfold afterInput; split <;> (try split) <;> (try split) <;> simp
+  unfold afterInput; split <;> simp
 @[simp] theorem afterOutput_enabled (alias : String) (n : Nat) (s : St) (o : Out) : (afterOutput alias n s o).enabled = s.enabled := by
   unfold afterOutput; split <;> simp
 @[simp] theorem afterOutput_forced (alias : String) (n : Nat) (s : St) (o : Out) : (afterOutput alias n s o).forced = s.forced := by
